@@ -7,6 +7,26 @@ COMMON_ASSUME = [
 ]
 
 PROPS = {
+    "C11": {
+        "stages": [{"bin": "hist"}],
+        "rule": "history monitor: a model histogram (map index tuple -> count; the cell of an observation found by a LINEAR scan e_i <= v < e_{i+1} over each axis's sorted distinct edges, independent of the crate's binary search) is updated per accepted insert and compared with the WHOLE counts() array after EVERY add_observation: Ok iff the model finds a cell, counts equal the model everywhere (a rejected insert changed nothing), shape == per-axis bin counts, sum of counts == accepted inserts. Matrix form histogram(): equals the model of its rows for C / F / stepped / reversed / random zoo layouts of the observation matrix and for permuted rows. Exhaustive part: 1 and 2 axes, every subset of edges {0,2,4,6} per axis (zero-bin axes included), every observation in {below, each edge, each midpoint, above}^d fed as one history (each insert = one distinct case). Random part: 1..3 axes, 0..6 unsorted duplicated edges per axis, histories of 1..200 inserts mixing accepted and rejected points, i32 and N64. distinct = hash of (type, edges, history).",
+        "exhaustive": True,
+        "exhaustive_bound": {"quick": "d <= 2, <= 4 edges per axis, all single observations over the candidate set", "thorough": "same exhaustive part, 1M random histories"},
+        "assumptions": COMMON_ASSUME,
+    },
+    "C12": {
+        "stages": [{"bin": "hist"}],
+        "rule": "for each generated 1-D data set (i32, i64, u16, usize, N64; n in {0,1,2,3,5,10,31,100,333,1000,(10^4)}; classes: i*0.1, k/100, 1e6+k*0.01, 1+{0,1,2}eps, heavy ties/zero IQR, sign-crossing, magnitudes 1e+-6, i*0.001, mixed magnitudes; integer: small range, range 10n, wide, 7 levels, rounded normal) and each of the 5 strategies: empty => EmptyInput, constant => Strategy, other rejections must be Strategy and are not allowed when range/n_bins is a positive width (ints: range >= 2n; floats: any non-constant, except FreedmanDiaconis); accepted => first edge == min exactly, last edge > max, last - max <= width (+4ulp(M) floats), all bin widths == bin_width() (ints exactly, floats within 4ulp(M) when width >= 4ulp(M)), every observation has a bin, n_bins() == bins built, a histogram over the GridBuilder grid (1..3 columns, C/F/random layout) counts all n. TERMINATION is a logical-step bound: the strategy is instantiated with a counting element type and from_array / n_bins / build must finish within a budget of element operations derived from n and the expected bin count (a hang becomes a violation independent of machine load). distinct = hash of (type, data bits); non-trivial = n >= 2. Data sets whose own parameters imply > 2*10^5 bins are counted as skipped.",
+        "exhaustive": False,
+        "assumptions": COMMON_ASSUME + ["integer data is kept far from the type's limits (stated in the property)", "float geometry is judged with tolerance 4 ulp at magnitude max(|min|, |last edge|)"],
+    },
+    "C13": {
+        "stages": [{"bin": "hist"}],
+        "rule": "exhaustive: ALL sequences of length 0..5 (6 thorough) over {0..5} as edge collections (i32 with doubled values so half-way probes are integers, N64 genuinely, Tracked keys in thorough), built via From<Vec> and From<Array1>, x probes {-1, -1/2, 0, 1/2, ..., 6}: Edges::{len,is_empty,iter,index,as_array_view,indices_of}, Bins::{len,is_empty,index,index_of,range_of} against a BTreeSet / linear-scan model and against each other (range_of(v) == index(index_of(v))). Each edge sequence of length >= 2 is one distinct non-trivial case (counted exactly). Random part: grids of 1..3 axes: ndim/shape/projections, Grid::index for ALL index tuples, Grid::index_of for points inside every cell and random points.",
+        "exhaustive": True,
+        "exhaustive_bound": {"quick": "all edge sequences of length <= 5 over 6 values x 15 probes", "thorough": "length <= 6"},
+        "assumptions": COMMON_ASSUME + ["only comparisons are used by Edges/Bins (stated in the property), so a 6-value alphabet covers all order patterns up to the length bound"],
+    },
     "C03": {
         "stages": [{"bin": "mem"},
                    {"kind": "sanitizer", "tool": "asan", "tiers": ["quick", "thorough"]},
@@ -79,6 +99,24 @@ SANITIZER_STAGES = {}
 
 _EXPL = "exploration: the real code is executed and every execution is judged by an independent oracle; "
 MANIFEST_TEXT = {
+    "C11": {
+        "technique": "runtime monitoring: history monitor - model histogram (linear-scan bin model) compared with the full counts array after every insert of every history; conservation and order-independence checks; matrix form in zoo layouts",
+        "level_text": _EXPL + "all single-observation placements are enumerated for small grids; longer mixed accept/reject histories are seeded random.",
+        "level_note": "trusted: the linear-scan model (15 lines), BTreeSet for distinct sorted edges",
+        "design_ref": "DESIGN.md section 3 C11",
+    },
+    "C12": {
+        "technique": "runtime monitoring: bin-geometry oracle on executions of the real strategies plus a logical-step termination monitor (counting element type with an operation budget)",
+        "level_text": _EXPL + "data classes target the float representability and small-width corners; termination is observed in element operations, not wall-clock time.",
+        "level_note": "trusted: bin_width() as the advertised width; tolerance 4 ulp for float geometry",
+        "design_ref": "DESIGN.md section 3 C12",
+    },
+    "C13": {
+        "technique": "runtime monitoring: reference-model oracle (BTreeSet + linear scan) over exhaustively enumerated edge collections and probes; mutual-agreement checks between Edges, Bins and Grid accessors",
+        "level_text": _EXPL + "complete for all edge sequences up to the length bound over a 6-value alphabet.",
+        "level_note": "trusted: BTreeSet, linear scan",
+        "design_ref": "DESIGN.md section 3 C13",
+    },
     "C03": {
         "technique": "runtime monitoring: shadow-buffer monitor (bit snapshot of the parent allocation before/after, guard cells, per-lane multisets of unique cells) around every mutating routine; AddressSanitizer / Miri / memcheck on the same driver for writes outside the buffer",
         "level_text": _EXPL + "what is observed is the raw parent buffer, read by the harness's own index arithmetic, not through ndarray iterators.",
